@@ -1,6 +1,6 @@
 (** C11 - whitespace and redundant parentheses never change the parse (PARTIAL: the tokenizer-level facts proved here;
     invariance of the whole parse under re-layout and re-parenthesisation is carried by the correspondence). *)
-From EE Require Import Chars OpTable Decimal Token Lexer Ast Parser Api Utf8 LexerSpec LexerTiling.
+From EE Require Import Chars OpTable Decimal Token Lexer Ast Parser Api Utf8 LexerSpec LexerTiling ParserSteps.
 Open Scope N_scope.
 
 (* tokens are separated by whitespace only, so what lies between two tokens carries no information: the tiling theorem *)
@@ -39,6 +39,27 @@ Proof.
     unfold next_is_lparen. cbn [scan]. rewrite Hc. apply (IH Hr).
 Qed.
 Print Assumptions C11_call_lookahead_skips_blanks.
+
+(* parentheses are transparent: a parenthesised expression in operand position yields exactly the tree of the inner
+   expression (no node is built for the parentheses), so k redundant pairs yield the same operand tree as none *)
+Theorem C11_parens_transparent : forall tbl f d ts e rest,
+  parse_expression tbl TmEof f d ts = Ok (e, TDelim DRParen :: rest) ->
+  parse_token tbl TmEof (S f) d (TDelim DLParen :: ts) = Ok (e, rest).
+Proof.
+  intros tbl f d ts e rest H. rewrite parse_token_paren_eq. rewrite advance_eof. cbn [bind]. rewrite H. cbn [bind].
+  assert (E: cur_is (TDelim DRParen :: rest) s_rparen = true) by reflexivity. rewrite E. rewrite advance_eof. reflexivity.
+Qed.
+Print Assumptions C11_parens_transparent.
+
+(* an unbalanced or mismatched closing delimiter after the inner expression is an error, never ignored *)
+Theorem C11_parens_must_close : forall tbl f d ts e t rest,
+  parse_expression tbl TmEof f d ts = Ok (e, t :: rest) -> tok_is t s_rparen = false ->
+  parse_token tbl TmEof (S f) d (TDelim DLParen :: ts) = Err.
+Proof.
+  intros tbl f d ts e t rest H N. rewrite parse_token_paren_eq. rewrite advance_eof. cbn [bind]. rewrite H. cbn [bind].
+  cbn [cur_is]. rewrite N. reflexivity.
+Qed.
+Print Assumptions C11_parens_must_close.
 
 Example C11_example :
   let tbl := {| t_infix := [([43], {| ic_prec := 110; ic_setter := false; ic_right := false |})]; t_prefix := []; t_postfix := [] |} in
